@@ -23,12 +23,24 @@ impl Template {
 
     /// Renders an instance of the Template, using the given globals.
     pub fn render_to(&self, writer: &mut dyn Write, globals: &dyn crate::ObjectView) -> Result<()> {
+        #[cfg(liquid_verif)]
+        {
+            runtime::verif_trace::discard_if_idle();
+            runtime::verif_trace::begin();
+        }
         let runtime = runtime::RuntimeBuilder::new().set_globals(globals);
         let runtime = match self.partials {
             Some(ref partials) => runtime.set_partials(partials.as_ref()),
             None => runtime,
         };
         let runtime = runtime.build();
+        #[cfg(liquid_verif)]
+        {
+            let result = self.template.render_to(writer, &runtime);
+            runtime::verif_trace::end(result.is_ok());
+            return result;
+        }
+        #[cfg(not(liquid_verif))]
         self.template.render_to(writer, &runtime)
     }
 }
